@@ -1759,15 +1759,13 @@ class PseudoNetCDFFile(PseudoNetCDFSelfReg, object):
 
                     # Get a new reference date in yearlike
                     crefdate = datetime(yearlike, 1, 1, tzinfo=utc)
-                    if refdate.month != 1 or refdate.day != 1:
-                        # Get start date in yearlike
-                        refcdate = datetime(
-                            yearlike, refdate.month, refdate.day, tzinfo=utc)
-                        # Calculate delta in years
-                        addyears = (
-                            refcdate - crefdate).total_seconds() / yearseconds
-                    else:
-                        addyears = 0
+                    # Get start date and time of day in yearlike
+                    refcdate = datetime(
+                        yearlike, refdate.month, refdate.day, refdate.hour,
+                        refdate.minute, refdate.second, tzinfo=utc)
+                    # Calculate delta in years
+                    addyears = (
+                        refcdate - crefdate).total_seconds() / yearseconds
                     # Convert time to fractional years, including change in
                     # reference
                     incrdenom = {'years': 1, 'days': yeardays,
